@@ -237,6 +237,25 @@ UNIT_CASES = {'T': ((1, 2), 3), 'F': ((9, 1), 10), 'ST': ("p, q", 3), 'SF': ("x,
 def run_special(ctx, which):
     """Scenarios built with real tools (sandbox, unit_test, verify, TIFA, assertions) instead of hand-made Feedback objects."""
     rng = ctx.rng
+    if which == 'C01':
+        # every rank against every rank, in both creation orders: two plain feedbacks that differ only in where the documented order
+        # puts them (a category of the table, no category at all, a category outside the table; a priority that re-ranks or shifts)
+        cats = ['syntax', 'mistakes', 'instructor', 'algorithmic', 'runtime', 'student', 'specification', 'positive', 'instructions',
+                'uncategorized', None, 'custom_cat', 'style']
+        ranks = [(c, None) for c in cats] + [(c, p) for c in (None, 'custom_cat', 'runtime') for p in ('highest', 'lowest', 'high', 'low', 'syntax')]
+        pairs = [(a, b) for a in ranks for b in ranks]
+        mine = pairs[(ctx.shard - 1)::4]
+        for (ca, pa), (cb, pb) in mine:
+            fbs = []
+            for label, c, p_ in (('alpha', ca, pa), ('Beta', cb, pb)):
+                kw = {'label': label, 'message': 'msg-' + label}
+                if c is not None:
+                    kw['category'] = c
+                if p_ is not None:
+                    kw['priority'] = p_
+                fbs.append({'cls': 'Feedback', 'kw': kw})
+            run_case(ctx, which, {'spec': {'feedbacks': fbs, 'suppressions': [], 'sup_first': False, 'main_report': False}, 'order': None})
+            ctx.count('rank_pairs_checked')
     if which == 'C03':
         for _ in range(ctx.pick(150, 3000)):
             n = rng.choice([1, 2, 4, 5, 10])
